@@ -48,6 +48,17 @@ CLAIMS = {
              "errors in 4 placements, uncaught throws surfacing as JSError, and line/column shift invariance.",
         technique="differential symbolic execution vs definitional interpreter (CrossHair/z3)",
         design_ref="DESIGN.md section 4 (C07)"),
+    "C09": dict(
+        text="Differential symbolic execution of the real regex engine (parser and compiler on a concrete pattern, the "
+             "matching VM on a symbolic subject) against a transcription of the ECMA-262 22.2.2 continuation-passing "
+             "matcher built from the generator's own pattern AST: for each of ~220 enumerated core patterns (every "
+             "operator kind: classes, escapes, groups, alternation, greedy/lazy/counted quantifiers, backreferences "
+             "incl. forward ones, all four lookarounds, anchors, boundaries) and seeded random depth-3 patterns, under "
+             "the flag sets {none, m, s} the subject is EVERY string up to the length bound over all code points "
+             "(solver variable) and match/no-match, index, matched text and every capture (undefined vs empty) must "
+             "agree; under /i the subject is solver-indexed over a pinned alphabet with the special-casing characters.",
+        technique="differential symbolic execution vs the transcribed ECMAScript matcher (CrossHair/z3)",
+        design_ref="DESIGN.md section 4 (C09)"),
     "C14": dict(
         text="Encoding kernels over all sizes: for every opcode with an operand, Compiler._emit / _emit_jump / "
              "_patch_jump are executed with the operand, the jump target and the code size as solver variables in "
